@@ -759,7 +759,10 @@ def list_defaults(P, R, rule='C15.GRD.4'):
             gs = f.guards(c.bid)
             by_len = [g for g in gs if on_path(g[0], 'value') and is_field(g[0], 'used')]
             by_cap = [g for g in gs if on_path(g[0], 'value') and is_field(g[0], 'size') and g[1] == '==' and const_of(g[2]) == 0]
-            R.ob(rule, bool(by_cap) and not by_len, c, '%s installs the default only into a list that never held a value (capacity test %s, length test %s)' % (name, bool(by_cap), bool(by_len)), key='default-fill:%s' % name)
+            by_presence = [g for g in gs if isinstance(g[0], dict) and g[0].get('k') == 'mem' and g[0].get('field') == 'present' and g[1] == '==' and const_of(g[2]) == 0]
+            # the node's present bit tells an omitted list from an empty one on its own; without it the only witness is
+            # the vector's capacity (a list emptied by a file keeps it), never its length
+            R.ob(rule, bool(by_presence) or (bool(by_cap) and not by_len), c, '%s installs the default only into a list the file did not give (present-bit test %s, capacity test %s, length test %s)' % (name, bool(by_presence), bool(by_cap), bool(by_len)), key='default-fill:%s' % name)
     cp = P.fn('string_vector_copy')
     if cp is not None and len(cp.params) == 2:
         dst = cp.params[0]
